@@ -5,9 +5,14 @@
 //   (b) bigBed: the `bin_data.push_back((bin, bin_start, bin_end, vec![0; n], vec![f64::NAN; n]))` statement (2 sites)
 //       and the `match summary { .. }` finalisation over the per-base cells                                   (4 sites)
 //   (c) bigBed exact bins: the per-cell update loops of one entry on one bin                                  (1 site)
+//   (d) bigWig exact bins: the accumulation step of one value on one bin                                      (1 site)
+//   (e) the FRAME of each of the four fillers (the complement of the carve-outs; whole function, 4 extractions): the
+//       initialisation `v.fill(missing)` (the array a caller passes holds ARBITRARY numbers), the integer prologue of every
+//       iteration (`interval_start` / `interval_end`: the item clamped to the request, minus the request's start, as
+//       mathematical integers), the pop loop and the drain loop as far as WHERE a finalisation is stored.
 // Floats are uninterpreted: SHAPE only (which operation on which operands, NaN test as an uninterpreted predicate).
 // NOT covered: the deque bookkeeping (which bins exist, which interval meets which bin, when a bin is popped), the
-// f64 bin arithmetic, the accumulation step of the bigWig fillers, the zoom cell update.  See NOTES.md.
+// f64 bin arithmetic, the zoom cell update / zoom accumulation.  See NOTES.md.
 use vstd::prelude::*;
 use vstd::std_specs::ops::*;
 use vstd::std_specs::convert::FromSpec;
@@ -668,6 +673,652 @@ fn accumulate_bwb(data: &mut Option<(i32, f64)>, summary: Summary, bin_start: &i
                 }
             }
             *data = Some(t__);
+}
+
+// =====================================================================================
+// (e) the FRAME of the four binned fillers (the complement of the carve-outs above): shims and vocabulary
+// =====================================================================================
+pub struct BedEntry {
+    pub start: u32,
+    pub end: u32,
+    pub rest: String,
+}
+// bigtools' per-record statistics struct `Summary` (a field of ZoomRecord) is renamed: pybigtools has its own `enum Summary`
+#[derive(Copy, Clone)]
+pub struct ZoomSummary {
+    pub total_items: u64,
+    pub bases_covered: u64,
+    pub min_val: f64,
+    pub max_val: f64,
+    pub sum: f64,
+    pub sum_squares: f64,
+}
+#[derive(Copy, Clone)]
+pub struct ZoomRecord {
+    pub chrom: u32,
+    pub start: u32,
+    pub end: u32,
+    pub summary: ZoomSummary,
+}
+/// `bigtools::BBIReadError` (imported as `_BBIReadError`): opaque.
+#[verifier::external_body]
+#[derive(Debug)]
+pub struct ReadErr { _p: u8 }
+/// R11 shim for the generic stream `I: Iterator<Item = Result<T, _BBIReadError>>` (the reader's interval iterator; same shim
+/// as unit py_perbase): ghost `rest()` = the items it will still yield; `next` yields the head.
+#[verifier::external_body]
+#[verifier::reject_recursive_types(T)]
+pub struct VIter<T> { _p: core::marker::PhantomData<T> }
+impl<T> VIter<T> {
+    pub uninterp spec fn rest(&self) -> Seq<Result<T, ReadErr>>;
+    #[verifier::external_body]
+    pub fn next(&mut self) -> (r: Option<Result<T, ReadErr>>)
+        ensures
+            old(self).rest().len() == 0 ==> r is None && final(self).rest() == old(self).rest(),
+            old(self).rest().len() > 0 ==> r == Some(old(self).rest()[0]) && final(self).rest() == old(self).rest().drop_first(),
+    { unimplemented!() }
+}
+/// R11 shim for `numpy::ndarray::ArrayViewMut<'_, f64, numpy::Ix1>` (the output array, one cell per bin) with a GHOST
+/// record `fin()` of the bin finalisations: bin index -> the value of the LAST `v[bin] = x` statement since the call began.
+/// The CONTENTS of the array on entry are unconstrained (a caller may pass its own `arr=`).
+///   len()          number of cells
+///   fill(x)        every cell := x                      (not a finalisation: `fin()` unchanged)
+///   set_bin(b, x)  `v[b] = x;` (`IndexMut`: PANICS when b >= len, so it returns only for b < len): cell b := x, recorded in `fin()`
+#[verifier::external_body]
+pub struct VBins { _p: u8 }
+impl VBins {
+    pub uninterp spec fn view(&self) -> Seq<f64>;
+    pub uninterp spec fn fin(&self) -> Map<int, f64>;
+    pub open spec fn spec_len(&self) -> usize { self@.len() as usize }
+    #[verifier::external_body]
+    #[verifier::when_used_as_spec(spec_len)]
+    pub fn len(&self) -> (r: usize) ensures r == self@.len(), r == self.spec_len() { unimplemented!() }
+    #[verifier::external_body]
+    pub fn fill(&mut self, x: f64)
+        ensures
+            final(self)@.len() == old(self)@.len(),
+            forall|i: int| 0 <= i < final(self)@.len() ==> (#[trigger] final(self)@[i]) == x,
+            final(self).fin() == old(self).fin(),
+    { unimplemented!() }
+    #[verifier::external_body]
+    pub fn set_bin(&mut self, b: usize, x: f64)
+        ensures
+            b < old(self)@.len(),
+            final(self)@ == old(self)@.update(b as int, x),
+            final(self).fin() == old(self).fin().insert(b as int, x),
+    { unimplemented!() }
+}
+/// `VecDeque::front_mut` (std): None when empty, else a mutable reference to element 0
+#[verifier::external_body]
+pub fn deque_front_mut<T>(d: &mut VecDeque<T>) -> (r: Option<&mut T>)
+    ensures
+        old(d)@.len() == 0 ==> r is None && final(d)@ == old(d)@,
+        old(d)@.len() > 0 ==> r is Some && *r->Some_0 == old(d)@[0] && final(d)@ == old(d)@.update(0, *final(r->Some_0)),
+{ d.front_mut() }
+/// integer calls a rewritten prologue might use, with their REAL contracts (judged, not rejected)
+pub axiom fn ax_lossless_int_from()
+    ensures
+        <i64 as FromSpec<u32>>::obeys_from_spec(), forall|x: u32| #[trigger] <i64 as FromSpec<u32>>::from_spec(x) == x as i64,
+        <i64 as FromSpec<i32>>::obeys_from_spec(), forall|x: i32| #[trigger] <i64 as FromSpec<i32>>::from_spec(x) == x as i64,
+        <u64 as FromSpec<u32>>::obeys_from_spec(), forall|x: u32| #[trigger] <u64 as FromSpec<u32>>::from_spec(x) == x as u64;
+pub assume_specification [i32::saturating_sub] (a: i32, b: i32) -> (r: i32)
+    ensures r == (if a - b > i32::MAX { i32::MAX as int } else if a - b < i32::MIN { i32::MIN as int } else { a - b });
+pub assume_specification [i32::saturating_add] (a: i32, b: i32) -> (r: i32)
+    ensures r == (if a + b > i32::MAX { i32::MAX as int } else if a + b < i32::MIN { i32::MIN as int } else { a + b });
+pub assume_specification [u32::abs_diff] (a: u32, b: u32) -> (r: u32)
+    ensures r == (if a >= b { a - b } else { b - a });
+/// `std::cmp::max(a, b)` / `min` on i32
+pub fn ord_max_i32(a: i32, b: i32) -> (r: i32) ensures r == (if a >= b { a } else { b }) { if a >= b { a } else { b } }
+pub fn ord_min_i32(a: i32, b: i32) -> (r: i32) ensures r == (if a <= b { a } else { b }) { if a <= b { a } else { b } }
+/// `x as usize` for a float (saturating truncation): uninterpreted, NO contract
+#[verifier::external_body]
+pub fn f64_to_usize(x: f64) -> (r: usize) { x as usize }
+/// the number a finalisation `match summary { .. }` reports for a popped bin: its VALUE is under the contracts of the
+/// carve-outs (a)/(b) above; the frame only tracks WHERE it is stored
+#[verifier::external_body]
+pub fn finished_value() -> (r: f64) { unimplemented!() }
+/// the rest of one iteration of the interval loop (new bins pushed, `assert!` loop, accumulation into the deque's bins):
+/// NOT under contract here (float bin arithmetic, `iter_mut` over the deque).  It is handed the deque and the iteration's
+/// locals but NOT the output array: the carve refuses (anchor lost) when that text mentions `v[..]`, `v.fill`, ..
+#[verifier::external_body]
+fn rest_of_iteration<T, B>(interval: &T, interval_start: i32, interval_end: i32, bin_start: usize, bin_end: usize, summary: Summary, bin_size: f64, bin_data: &mut VecDeque<B>) { unimplemented!() }
+
+/// an item of the stream as far as the frame looks at it: its half-open span [start, end)
+pub trait Spanned { spec fn lo(&self) -> int; spec fn hi(&self) -> int; }
+impl Spanned for Value { open spec fn lo(&self) -> int { self.start as int } open spec fn hi(&self) -> int { self.end as int } }
+impl Spanned for BedEntry { open spec fn lo(&self) -> int { self.start as int } open spec fn hi(&self) -> int { self.end as int } }
+impl Spanned for ZoomRecord { open spec fn lo(&self) -> int { self.start as int } open spec fn hi(&self) -> int { self.end as int } }
+/// What the range query `get_interval` / `get_zoom_interval(chrom, max(start,0), min(end,length))` hands to a filler called with
+/// (start, end): items that TOUCH the query, for bigBed entries and zoom records NOT clipped to it (units bb_dec, bw_dec, iters;
+/// py_perbase `bb_answer`).  Since max(start,0) >= start and min(end,length) <= end: `lo <= end && start <= hi`.
+/// Coordinates fit i32 (chromosome length <= i32::MAX, py_perbase robustness remark R2).
+pub open spec fn touches<T: Spanned>(s: Seq<Result<T, ReadErr>>, start: int, end: int) -> bool {
+    forall|i: int| 0 <= i < s.len() && (#[trigger] s[i]) is Ok ==>
+        0 <= s[i]->Ok_0.lo() <= s[i]->Ok_0.hi() && s[i]->Ok_0.hi() <= i32::MAX && start <= s[i]->Ok_0.hi() && s[i]->Ok_0.lo() <= end
+}
+/// a coordinate clamped to the requested range [lo, hi]
+pub open spec fn clamp(x: int, lo: int, hi: int) -> int { if x < lo { lo } else if x > hi { hi } else { x } }
+/// every cell either holds what its last finalisation stored or what it held in `base` (the array right before the interval loop)
+pub open spec fn only_finalised_bins_differ(v: VBins, base: Seq<f64>) -> bool {
+    &&& v@.len() == base.len()
+    &&& forall|b: int| 0 <= b < base.len() ==> #[trigger] v@[b] == (if v.fin().contains_key(b) { v.fin()[b] } else { base[b] })
+}
+
+// ---- (e) to_array_bins: the frame: initialisation, integer prologue of every iteration, where finalisations are stored ----
+#[verifier::loop_isolation(false)]
+fn to_array_bins(
+    start: i32,
+    end: i32,
+    iter: &mut VIter<Value>,
+    summary: Summary,
+    bins: usize,
+    missing: f64,
+    v: &mut VBins,
+) -> (r: Result<(), ReadErr>)
+    requires
+        
+        // the caller allocates `bins` cells or checks the size of a passed `arr` (intervals_to_array / entries_to_array)
+        old(v)@.len() == bins,
+        
+        start <= end, end - start <= i32::MAX,
+        
+        touches(old(iter).rest(), start as int, end as int),
+        
+        // definition of the ghost record; the CONTENTS of `v` on entry are arbitrary
+        old(v).fin() =~= Map::empty(),
+    ensures
+        
+        final(v)@.len() == bins,
+        
+        r is Ok ==> forall|b: int| 0 <= b < bins && !final(v).fin().contains_key(b) ==> #[trigger] final(v)@[b] == missing,
+        
+        r is Ok ==> forall|b: int| 0 <= b < bins && final(v).fin().contains_key(b) ==> #[trigger] final(v)@[b] == final(v).fin()[b],
+{
+    proof { float_ax::float_det(); ax_lossless_int_from(); }
+
+    assert((v.len()) == (bins));
+    v.fill(missing);
+
+    let mut bin_data: VecDeque<(usize, i32, i32, Option<(i32, f64)>)> = VecDeque::new();
+    let bin_size = as_f64((end - start)) / as_f64(bins);
+
+    let ghost base = v@;
+    loop 
+        invariant
+            
+            only_finalised_bins_differ(*v, base),
+            
+            touches(iter.rest(), start as int, end as int),
+        decreases
+            
+            iter.rest().len(),
+{
+
+        let ghost rest0 = iter.rest();
+        let interval = match iter.next() { None => { break; } Some(r__) => r__ };
+
+        proof {
+            assert(interval == rest0[0]);
+            assert forall|i: int| 0 <= i < iter.rest().len() implies (#[trigger] iter.rest()[i]) == rest0[i + 1] by {}
+        }
+        let interval = interval?;
+        let interval_start = (interval.start as i32).max(start) - start;
+        let interval_end = (interval.end as i32).min(end) - start;
+
+        proof {
+            // the part of the item inside the request [start, end), relative to `start`: mathematical integers, no wrap for start < 0
+            assert(interval_start == clamp(interval.lo(), start as int, end as int) - start); 
+            assert(interval_end == clamp(interval.hi(), start as int, end as int) - start); 
+            assert(0 <= interval_start <= end - start && 0 <= interval_end <= end - start); 
+        }
+        let bin_start = f64_to_usize((as_f64(interval_start)) / bin_size);
+        let bin_end = f64_to_usize((as_f64((interval_end - 1))) / bin_size);
+
+        while let Some(front) = deque_front_mut(&mut bin_data) 
+            invariant
+                
+                only_finalised_bins_differ(*v, base),
+            decreases
+                
+                bin_data@.len(),
+{
+            if front.0 < bin_start {
+                let front = bin_data.pop_front().unwrap();
+                let bin = front.0;
+
+                match summary {
+                    Summary::Min => {
+                        v.set_bin(bin, finished_value());
+                    }
+                    Summary::Max => {
+                        v.set_bin(bin, finished_value());
+                    }
+                    Summary::Mean => {
+                        v.set_bin(bin, finished_value());
+                    }
+                }
+
+                proof { assert(v.fin().contains_key(front.0 as int) && v@[front.0 as int] == v.fin()[front.0 as int]); } 
+            } else {
+                break;
+            }
+        }
+        rest_of_iteration(&interval, interval_start, interval_end, bin_start, bin_end, summary, bin_size, &mut bin_data);
+    }
+    while let Some(front) = bin_data.pop_front() 
+        invariant
+            
+            only_finalised_bins_differ(*v, base),
+        decreases
+            
+            bin_data@.len(),
+{
+        let bin = front.0;
+
+        match summary {
+            Summary::Min => {
+                v.set_bin(bin, finished_value());
+            }
+            Summary::Max => {
+                v.set_bin(bin, finished_value());
+            }
+            Summary::Mean => {
+                v.set_bin(bin, finished_value());
+            }
+        }
+    
+        proof { assert(v.fin().contains_key(front.0 as int) && v@[front.0 as int] == v.fin()[front.0 as int]); } 
+}
+    Ok(())
+}
+
+// ---- (e) to_array_zoom: the frame: initialisation, integer prologue of every iteration, where finalisations are stored ----
+#[verifier::loop_isolation(false)]
+fn to_array_zoom(
+    start: i32,
+    end: i32,
+    iter: &mut VIter<ZoomRecord>,
+    summary: Summary,
+    bins: usize,
+    missing: f64,
+    v: &mut VBins,
+) -> (r: Result<(), ReadErr>)
+    requires
+        
+        // the caller allocates `bins` cells or checks the size of a passed `arr` (intervals_to_array / entries_to_array)
+        old(v)@.len() == bins,
+        
+        start <= end, end - start <= i32::MAX,
+        
+        touches(old(iter).rest(), start as int, end as int),
+        
+        // definition of the ghost record; the CONTENTS of `v` on entry are arbitrary
+        old(v).fin() =~= Map::empty(),
+    ensures
+        
+        final(v)@.len() == bins,
+        
+        r is Ok ==> forall|b: int| 0 <= b < bins && !final(v).fin().contains_key(b) ==> #[trigger] final(v)@[b] == missing,
+        
+        r is Ok ==> forall|b: int| 0 <= b < bins && final(v).fin().contains_key(b) ==> #[trigger] final(v)@[b] == final(v).fin()[b],
+{
+    proof { float_ax::float_det(); ax_lossless_int_from(); }
+
+    assert((v.len()) == (bins));
+    v.fill(missing);
+
+    // (bin, bin_start, bin_end, Option<(covered_bases, value)>)
+    let mut bin_data: VecDeque<(usize, i32, i32, Option<(i32, f64)>)> = VecDeque::new();
+    let bin_size = as_f64((end - start)) / as_f64(bins);
+
+    let ghost base = v@;
+    loop 
+        invariant
+            
+            only_finalised_bins_differ(*v, base),
+            
+            touches(iter.rest(), start as int, end as int),
+        decreases
+            
+            iter.rest().len(),
+{
+
+        let ghost rest0 = iter.rest();
+        let interval = match iter.next() { None => { break; } Some(r__) => r__ };
+
+        proof {
+            assert(interval == rest0[0]);
+            assert forall|i: int| 0 <= i < iter.rest().len() implies (#[trigger] iter.rest()[i]) == rest0[i + 1] by {}
+        }
+        let interval = interval?;
+        let interval_start = (interval.start as i32).max(start) - start;
+        let interval_end = (interval.end as i32).min(end) - start;
+
+        proof {
+            // the part of the item inside the request [start, end), relative to `start`: mathematical integers, no wrap for start < 0
+            assert(interval_start == clamp(interval.lo(), start as int, end as int) - start); 
+            assert(interval_end == clamp(interval.hi(), start as int, end as int) - start); 
+            assert(0 <= interval_start <= end - start && 0 <= interval_end <= end - start); 
+        }
+        let bin_start = f64_to_usize((as_f64(interval_start)) / bin_size);
+        let bin_end = f64_to_usize((as_f64((interval_end - 1))) / bin_size);
+
+        while let Some(front) = deque_front_mut(&mut bin_data) 
+            invariant
+                
+                only_finalised_bins_differ(*v, base),
+            decreases
+                
+                bin_data@.len(),
+{
+            if front.0 < bin_start {
+                let front = bin_data.pop_front().unwrap();
+                let bin = front.0;
+
+                match summary {
+                    Summary::Min => {
+                        v.set_bin(bin, finished_value());
+                    }
+                    Summary::Max => {
+                        v.set_bin(bin, finished_value());
+                    }
+                    Summary::Mean => {
+                        v.set_bin(bin, finished_value());
+                    }
+                }
+
+                proof { assert(v.fin().contains_key(front.0 as int) && v@[front.0 as int] == v.fin()[front.0 as int]); } 
+            } else {
+                break;
+            }
+        }
+        rest_of_iteration(&interval, interval_start, interval_end, bin_start, bin_end, summary, bin_size, &mut bin_data);
+    }
+    while let Some(front) = bin_data.pop_front() 
+        invariant
+            
+            only_finalised_bins_differ(*v, base),
+        decreases
+            
+            bin_data@.len(),
+{
+        let bin = front.0;
+
+        match summary {
+            Summary::Min => {
+                v.set_bin(bin, finished_value());
+            }
+            Summary::Max => {
+                v.set_bin(bin, finished_value());
+            }
+            Summary::Mean => {
+                v.set_bin(bin, finished_value());
+            }
+        }
+    
+        proof { assert(v.fin().contains_key(front.0 as int) && v@[front.0 as int] == v.fin()[front.0 as int]); } 
+}
+    Ok(())
+}
+
+// ---- (e) to_entry_array_bins: the frame: initialisation, integer prologue of every iteration, where finalisations are stored ----
+#[verifier::loop_isolation(false)]
+fn to_entry_array_bins(
+    start: i32,
+    end: i32,
+    iter: &mut VIter<BedEntry>,
+    summary: Summary,
+    bins: usize,
+    missing: f64,
+    v: &mut VBins,
+) -> (r: Result<(), ReadErr>)
+    requires
+        
+        // the caller allocates `bins` cells or checks the size of a passed `arr` (intervals_to_array / entries_to_array)
+        old(v)@.len() == bins,
+        
+        start <= end, end - start <= i32::MAX,
+        
+        touches(old(iter).rest(), start as int, end as int),
+        
+        // definition of the ghost record; the CONTENTS of `v` on entry are arbitrary
+        old(v).fin() =~= Map::empty(),
+    ensures
+        
+        final(v)@.len() == bins,
+        
+        r is Ok ==> forall|b: int| 0 <= b < bins && !final(v).fin().contains_key(b) ==> #[trigger] final(v)@[b] == missing,
+        
+        r is Ok ==> forall|b: int| 0 <= b < bins && final(v).fin().contains_key(b) ==> #[trigger] final(v)@[b] == final(v).fin()[b],
+{
+    proof { float_ax::float_det(); ax_lossless_int_from(); }
+
+    assert((v.len()) == (bins));
+    v.fill(missing);
+
+    // (<bin>, <bin_start>, <bin_end>, <covered_bases>, <sum>)
+    // covered_bases = 0 if uncovered, 1 if covered
+    let mut bin_data: VecDeque<(usize, i32, i32, Vec<i32>, Vec<f64>)> = VecDeque::new();
+    let bin_size = as_f64((end - start)) / as_f64(bins);
+
+    let ghost base = v@;
+    loop 
+        invariant
+            
+            only_finalised_bins_differ(*v, base),
+            
+            touches(iter.rest(), start as int, end as int),
+        decreases
+            
+            iter.rest().len(),
+{
+
+        let ghost rest0 = iter.rest();
+        let interval = match iter.next() { None => { break; } Some(r__) => r__ };
+
+        proof {
+            assert(interval == rest0[0]);
+            assert forall|i: int| 0 <= i < iter.rest().len() implies (#[trigger] iter.rest()[i]) == rest0[i + 1] by {}
+        }
+        let interval = interval?;
+        let interval_start = (interval.start as i32).max(start) - start;
+        let interval_end = (interval.end as i32).min(end) - start;
+
+        proof {
+            // the part of the item inside the request [start, end), relative to `start`: mathematical integers, no wrap for start < 0
+            assert(interval_start == clamp(interval.lo(), start as int, end as int) - start); 
+            assert(interval_end == clamp(interval.hi(), start as int, end as int) - start); 
+            assert(0 <= interval_start <= end - start && 0 <= interval_end <= end - start); 
+        }
+        let bin_start = f64_to_usize((as_f64(interval_start)) / bin_size);
+        let bin_end = f64_to_usize((as_f64((interval_end - 1))) / bin_size);
+
+        while let Some(front) = deque_front_mut(&mut bin_data) 
+            invariant
+                
+                only_finalised_bins_differ(*v, base),
+            decreases
+                
+                bin_data@.len(),
+{
+            if front.0 < bin_start {
+                let front = bin_data.pop_front().unwrap();
+                let bin = front.0;
+
+                match summary {
+                    Summary::Min => {
+                        v.set_bin(bin, finished_value());
+                    }
+                    Summary::Max => {
+                        v.set_bin(bin, finished_value());
+                    }
+                    Summary::Mean => {
+                        v.set_bin(bin, finished_value());
+                    }
+                }
+
+                proof { assert(v.fin().contains_key(front.0 as int) && v@[front.0 as int] == v.fin()[front.0 as int]); } 
+            } else {
+                break;
+            }
+        }
+        rest_of_iteration(&interval, interval_start, interval_end, bin_start, bin_end, summary, bin_size, &mut bin_data);
+    }
+    while let Some(front) = bin_data.pop_front() 
+        invariant
+            
+            only_finalised_bins_differ(*v, base),
+        decreases
+            
+            bin_data@.len(),
+{
+        let bin = front.0;
+
+        match summary {
+            Summary::Min => {
+                v.set_bin(bin, finished_value());
+            }
+            Summary::Max => {
+                v.set_bin(bin, finished_value());
+            }
+            Summary::Mean => {
+                v.set_bin(bin, finished_value());
+            }
+        }
+    
+        proof { assert(v.fin().contains_key(front.0 as int) && v@[front.0 as int] == v.fin()[front.0 as int]); } 
+}
+    Ok(())
+}
+
+// ---- (e) to_entry_array_zoom: the frame: initialisation, integer prologue of every iteration, where finalisations are stored ----
+#[verifier::loop_isolation(false)]
+fn to_entry_array_zoom(
+    start: i32,
+    end: i32,
+    iter: &mut VIter<ZoomRecord>,
+    summary: Summary,
+    bins: usize,
+    missing: f64,
+    v: &mut VBins,
+) -> (r: Result<(), ReadErr>)
+    requires
+        
+        // the caller allocates `bins` cells or checks the size of a passed `arr` (intervals_to_array / entries_to_array)
+        old(v)@.len() == bins,
+        
+        start <= end, end - start <= i32::MAX,
+        
+        touches(old(iter).rest(), start as int, end as int),
+        
+        // definition of the ghost record; the CONTENTS of `v` on entry are arbitrary
+        old(v).fin() =~= Map::empty(),
+    ensures
+        
+        final(v)@.len() == bins,
+        
+        r is Ok ==> forall|b: int| 0 <= b < bins && !final(v).fin().contains_key(b) ==> #[trigger] final(v)@[b] == missing,
+        
+        r is Ok ==> forall|b: int| 0 <= b < bins && final(v).fin().contains_key(b) ==> #[trigger] final(v)@[b] == final(v).fin()[b],
+{
+    proof { float_ax::float_det(); ax_lossless_int_from(); }
+
+    assert((v.len()) == (bins));
+    v.fill(missing);
+
+    // (<bin>, <bin_start>, <bin_end>, <covered_bases>, <sum>)
+    // covered_bases = 0 if uncovered, 1 if covered
+    let mut bin_data: VecDeque<(usize, i32, i32, Vec<i32>, Vec<f64>)> = VecDeque::new();
+    let bin_size = as_f64((end - start)) / as_f64(bins);
+
+    let ghost base = v@;
+    loop 
+        invariant
+            
+            only_finalised_bins_differ(*v, base),
+            
+            touches(iter.rest(), start as int, end as int),
+        decreases
+            
+            iter.rest().len(),
+{
+
+        let ghost rest0 = iter.rest();
+        let interval = match iter.next() { None => { break; } Some(r__) => r__ };
+
+        proof {
+            assert(interval == rest0[0]);
+            assert forall|i: int| 0 <= i < iter.rest().len() implies (#[trigger] iter.rest()[i]) == rest0[i + 1] by {}
+        }
+        let interval = interval?;
+        let interval_start = (interval.start as i32).max(start) - start;
+        let interval_end = (interval.end as i32).min(end) - start;
+
+        proof {
+            // the part of the item inside the request [start, end), relative to `start`: mathematical integers, no wrap for start < 0
+            assert(interval_start == clamp(interval.lo(), start as int, end as int) - start); 
+            assert(interval_end == clamp(interval.hi(), start as int, end as int) - start); 
+            assert(0 <= interval_start <= end - start && 0 <= interval_end <= end - start); 
+        }
+        let bin_start = f64_to_usize((as_f64(interval_start)) / bin_size);
+        let bin_end = f64_to_usize((as_f64((interval_end - 1))) / bin_size);
+
+        while let Some(front) = deque_front_mut(&mut bin_data) 
+            invariant
+                
+                only_finalised_bins_differ(*v, base),
+            decreases
+                
+                bin_data@.len(),
+{
+            if front.0 < bin_start {
+                let front = bin_data.pop_front().unwrap();
+                let bin = front.0;
+
+                match summary {
+                    Summary::Min => {
+                        v.set_bin(bin, finished_value());
+                    }
+                    Summary::Max => {
+                        v.set_bin(bin, finished_value());
+                    }
+                    Summary::Mean => {
+                        v.set_bin(bin, finished_value());
+                    }
+                }
+
+                proof { assert(v.fin().contains_key(front.0 as int) && v@[front.0 as int] == v.fin()[front.0 as int]); } 
+            } else {
+                break;
+            }
+        }
+        rest_of_iteration(&interval, interval_start, interval_end, bin_start, bin_end, summary, bin_size, &mut bin_data);
+    }
+    while let Some(front) = bin_data.pop_front() 
+        invariant
+            
+            only_finalised_bins_differ(*v, base),
+        decreases
+            
+            bin_data@.len(),
+{
+        let bin = front.0;
+
+        match summary {
+            Summary::Min => {
+                v.set_bin(bin, finished_value());
+            }
+            Summary::Max => {
+                v.set_bin(bin, finished_value());
+            }
+            Summary::Mean => {
+                v.set_bin(bin, finished_value());
+            }
+        }
+    
+        proof { assert(v.fin().contains_key(front.0 as int) && v@[front.0 as int] == v.fin()[front.0 as int]); } 
+}
+    Ok(())
 }
 
 } // verus!
